@@ -1174,10 +1174,10 @@ class Arithmetic(Expr):
         # check for single ASCII characters
         if self.expr.startswith('\'') and self.expr.endswith('\''):
             c = self.expr[1:-1]
-            c = c.encode('utf-8').decode('unicode_escape')
             try:
+                c = c.encode('utf-8').decode('unicode_escape')
                 return ord(c)
-            except TypeError:
+            except (TypeError, UnicodeDecodeError):
                 raise AssemblerError('invalid char literal in expr: "{}"'.format(self.expr), line)
 
         try:
